@@ -36,7 +36,7 @@ def initial_state(E: Engine):
         if ty.is_ref:
             v = V(ty, z3.Int("p_" + nm))
             st.assume(v.t < st.alloc)
-            st.assume(v.t >= 0 if ty.nullable else v.t > 0)
+            st.assume(v.t >= 0 if (ty.nullable or ty.kind == "any") else v.t > 0)
         elif ty.kind not in ("tuple", "opt", "none"):
             v = V(ty, z3.Const("p_" + nm, sort_of(ty)))
         env[nm] = v
@@ -78,6 +78,8 @@ def cvc5_check(solver):
     t0 = time.time()
     try:
         smt = "(set-logic ALL)\n" + solver.to_smt2()
+        # z3-internal names for total/partial nth; cvc5 knows only seq.nth
+        smt = smt.replace("seq.nth_u", "seq.nth").replace("seq.nth_i", "seq.nth")
         with tempfile.NamedTemporaryFile("w", suffix=".smt2", delete=False) as f:
             f.write(smt)
             path = f.name
@@ -152,6 +154,11 @@ def verify_function(key, prop_prefix="", replayer=None, only_labels=None) -> lis
     except Unsupported as e:
         return [Result("%s%s" % (prop_prefix, short), UNDECIDED, function=key, backend="pyvc",
                        output="outside the verified subset: %s" % e,
+                       detail="symbolic execution of %s" % key, time_s=time.time() - t_start)], E
+    except Exception:
+        import traceback
+        return [Result("%s%s" % (prop_prefix, short), ERROR, function=key, backend="pyvc",
+                       output="engine crash:\n" + traceback.format_exc()[-1500:],
                        detail="symbolic execution of %s" % key, time_s=time.time() - t_start)], E
     if not exits:
         return [Result("%s%s.paths" % (prop_prefix, short), ERROR, function=key,
